@@ -129,7 +129,7 @@ func ctxStores(fn *ssa.Function, nt *types.Named) []*ssa.Store {
 				continue
 			}
 			n := namedOf(fa.X.Type())
-			if n == nil || n.Obj() != nt.Obj() || fieldName(fa.X.Type(), fa.Field) != "ctx" {
+			if n == nil || n.Obj() != nt.Obj() || !strings.HasSuffix(types.TypeString(structOf(fa.X.Type()).Field(fa.Field).Type(), nil), "context.Context") {
 				continue
 			}
 			out = append(out, st)
@@ -159,7 +159,7 @@ func ruleContextChain(c *Ctx, rule string) {
 	for i := len(sts) - 1; i >= 0; i-- {
 		steps, root := ctxChain(cur)
 		all = append(all, steps...)
-		if fr, _, ok := loadedField(root); ok && fr.Field == "ctx" && i > 0 {
+		if fr, _, ok := loadedField(root); ok && fr.Type == a.SS.Obj().Name() && strings.HasSuffix(types.TypeString(root.Type(), nil), "context.Context") && i > 0 {
 			cur = sts[i-1].Val
 			continue
 		}
@@ -211,7 +211,7 @@ func ruleContextChain(c *Ctx, rule string) {
 					kt = types.TypeString(mi.X.Type(), shortQual)
 				}
 				v := origin(s.call.Call.Args[2])
-				c.check(strings.Contains(kt, "tunnelMetadataIncomingContextKey") && v == ssa.Value(a.ServerLoop.Params[1]), rule, w.Short(a.ServerLoop)+": incoming tunnel metadata attached", w.At(s.call), "WithValue("+kt+", tunnelMetadata)", "the root context stores "+desc(s.call.Call.Args[2])+" under key "+kt+"; expected the tunnel-opening metadata under the incoming-tunnel-metadata key")
+				c.check(strings.HasSuffix(kt, "."+w.accessorKey("TunnelMetadataFromIncomingContext")) && v == ssa.Value(a.ServerLoop.Params[1]), rule, w.Short(a.ServerLoop)+": incoming tunnel metadata attached", w.At(s.call), "WithValue("+kt+", tunnelMetadata)", "the root context stores "+desc(s.call.Call.Args[2])+" under key "+kt+"; expected the tunnel-opening metadata under the incoming-tunnel-metadata key")
 			}
 		}
 	})
@@ -223,14 +223,14 @@ func ruleContextChain(c *Ctx, rule string) {
 		}
 		if fr, _, isF := loadedField(call.Call.Value); isF && fr.Field == "Handler" && fr.Type == "MethodDesc" && len(call.Call.Args) >= 2 {
 			f2, _, ok2 := loadedField(call.Call.Args[1])
-			c.check(ok2 && f2.Type == a.SS.Obj().Name() && f2.Field == "ctx", rule, w.Short(a.Dispatch)+": unary handler receives the stream context", w.At(call), desc(call.Call.Args[1]), "the unary handler is invoked with "+desc(call.Call.Args[1])+" instead of the stream's context")
+			c.check(ok2 && f2.Type == a.SS.Obj().Name() && f2.Field == w.Roles().SSCtx, rule, w.Short(a.Dispatch)+": unary handler receives the stream context", w.At(call), desc(call.Call.Args[1]), "the unary handler is invoked with "+desc(call.Call.Args[1])+" instead of the stream's context")
 		}
 	})
 	for _, nt := range []*types.Named{a.SS, a.CS} {
 		if m := w.methodFn(nt, "Context"); m != nil {
 			ok := false
 			forEachReturnValue(m, 0, func(v ssa.Value, at ssa.Instruction) {
-				if fr, _, isF := loadedField(v); isF && fr.Field == "ctx" && fr.Type == nt.Obj().Name() {
+				if fr, _, isF := loadedField(v); isF && strings.HasSuffix(types.TypeString(v.Type(), nil), "context.Context") && fr.Type == nt.Obj().Name() {
 					ok = true
 				}
 			})
@@ -246,6 +246,7 @@ func ruleContextChain(c *Ctx, rule string) {
 		n := stepNames(steps)
 		c.check(n == "WithValue <- WithValue <- WithCancel" && origin(root) == ssa.Value(a.Allocate.Params[1]), rule, w.Short(a.Allocate)+": client stream context chain", w.At(cst[len(cst)-1]), n+" <- caller's ctx", "client stream context is ["+n+"] from "+desc(root)+"; expected [WithValue <- WithValue <- WithCancel] from the caller's context")
 		keys := map[string]string{}
+		keyVals := map[string]ssa.Value{}
 		for _, s := range steps {
 			if s.name == "WithValue" {
 				kt := ""
@@ -253,10 +254,12 @@ func ruleContextChain(c *Ctx, rule string) {
 					kt = types.TypeString(mi.X.Type(), shortQual)
 				}
 				keys[kt] = desc(s.call.Call.Args[2])
+				keyVals[kt] = s.call.Call.Args[2]
 			}
 		}
-		c.check(keys["grpctunnel.tunnelChannelContextKey"] == "param:c", rule, w.Short(a.Allocate)+": context carries this channel", w.At(cst[len(cst)-1]), "WithValue(tunnelChannelContextKey{}, c)", "the value under the tunnel-channel key is "+keys["grpctunnel.tunnelChannelContextKey"]+", expected the channel the stream is created on")
-		c.check(keys["grpctunnel.tunnelMetadataOutgoingContextKey"] == "*&param:c.tunnelMetadata", rule, w.Short(a.Allocate)+": context carries the tunnel's opening metadata", w.At(cst[len(cst)-1]), "WithValue(tunnelMetadataOutgoingContextKey{}, c.tunnelMetadata)", "the value under the outgoing-tunnel-metadata key is "+keys["grpctunnel.tunnelMetadataOutgoingContextKey"])
+		chKey, mdKey := "grpctunnel."+w.accessorKey("TunnelChannelFromContext"), "grpctunnel."+w.accessorKey("TunnelMetadataFromOutgoingContext")
+		c.check(keyVals[chKey] != nil && origin(keyVals[chKey]) == ssa.Value(a.Allocate.Params[0]), rule, w.Short(a.Allocate)+": context carries this channel", w.At(cst[len(cst)-1]), "WithValue(tunnelChannelContextKey{}, c)", "the value under the tunnel-channel key is "+keys["grpctunnel.tunnelChannelContextKey"]+", expected the channel the stream is created on")
+		c.check(isRecvField(keyVals[mdKey], a.Allocate, w.Roles().ChTunnelMetadata), rule, w.Short(a.Allocate)+": context carries the tunnel's opening metadata", w.At(cst[len(cst)-1]), "WithValue(tunnelMetadataOutgoingContextKey{}, c.tunnelMetadata)", "the value under the outgoing-tunnel-metadata key is "+keys["grpctunnel.tunnelMetadataOutgoingContextKey"])
 	}
 	// --- senders / receivers get the stream's own context
 	for _, side := range []struct {
@@ -275,7 +278,7 @@ func ruleContextChain(c *Ctx, rule string) {
 				return
 			}
 			f := staticCallee(call)
-			if f == nil || !w.inRoot(f) || !(strings.HasPrefix(f.Name(), "newSender") || strings.HasPrefix(f.Name(), "newReceiver")) {
+			if f == nil || !w.inRoot(f) || !(w.sameFn(f, w.roleFunc("newSender")) || w.sameFn(f, w.roleFunc("newSenderWithoutFlowControl")) || w.sameFn(f, w.roleFunc("newReceiver")) || w.sameFn(f, w.roleFunc("newReceiverWithoutFlowControl"))) {
 				return
 			}
 			if len(call.Call.Args) == 0 || !strings.HasSuffix(types.TypeString(call.Call.Args[0].Type(), nil), "context.Context") {
@@ -298,12 +301,12 @@ func ruleContextChain(c *Ctx, rule string) {
 			allInstrs(f, func(x ssa.Instruction) {
 				if u, ok := x.(*ssa.UnOp); ok && u.Op == token.ARROW {
 					if call, ok := u.X.(*ssa.Call); ok && call.Call.IsInvoke() && call.Call.Method.Name() == "Done" {
-						if fr, _, isF := loadedField(call.Call.Value); isF && fr.Field == "ctx" {
+						if fr, _, isF := loadedField(call.Call.Value); isF && fr.Field == w.Roles().SSCtx {
 							hasWait = true
 						}
 					}
 				}
-				if ci, ok := x.(ssa.CallInstruction); ok && ci.Common().IsInvoke() && ci.Common().Method.Name() == "cancel" {
+				if ci, ok := x.(ssa.CallInstruction); ok && ci.Common().IsInvoke() && ci.Common().Method.Name() == w.mName("cancel") {
 					hasCancel = true
 				}
 			})
@@ -332,12 +335,12 @@ func ruleContextChain(c *Ctx, rule string) {
 func ruleRegistryPairing(c *Ctx, rule string) {
 	c.rule(rule, "registry add => deferred remove: in the reverse-open function each add(ch, …) on a registry is followed, before the blocking wait, by a deferred remove(ch) of the same channel on the same registry, and the channel's deferred Close is registered before both")
 	w := c.W
-	fn := w.Func("(*TunnelServiceHandler).openReverseTunnel")
+	fn := w.roleFunc("(*TunnelServiceHandler).openReverseTunnel")
 	if fn == nil {
 		c.fail(rule, "reverse-open function", "-", "not found")
 		return
 	}
-	addF, rmF := w.Func("(*reverseChannels).add"), w.Func("(*reverseChannels).remove")
+	addF, rmF := w.roleFunc("(*reverseChannels).add"), w.roleFunc("(*reverseChannels).remove")
 	if addF == nil || rmF == nil {
 		c.fail(rule, "registry add/remove", "-", "not found")
 		return
@@ -349,11 +352,11 @@ func ruleRegistryPairing(c *Ctx, rule string) {
 	allInstrs(fn, func(in ssa.Instruction) {
 		switch x := in.(type) {
 		case *ssa.Call:
-			if staticCallee(x) == addF {
+			if w.sameFn(staticCallee(x), addF) {
 				adds = append(adds, x)
 			}
 		case *ssa.Defer:
-			if staticCallee(x) == rmF {
+			if w.sameFn(staticCallee(x), rmF) {
 				rms = append(rms, x)
 			}
 			if f := staticCallee(x); f != nil && f.Name() == "Close" {
@@ -417,3 +420,12 @@ func ruleGracefulStopReturns(c *Ctx, rule string) {
 }
 
 var _ = fmt.Sprint
+
+// isRecvField: v is a load of <receiver of fn>.<field>, possibly through a MakeInterface.
+func isRecvField(v ssa.Value, fn *ssa.Function, field string) bool {
+	if v == nil || fn == nil {
+		return false
+	}
+	fr, base, ok := loadedField(origin(v))
+	return ok && fr.Field == field && len(fn.Params) > 0 && origin(base) == ssa.Value(fn.Params[0])
+}
